@@ -302,6 +302,41 @@ def _stale_digests(x):
             _stale_digests(v)
 
 
+def check_crowd(rec, US):
+    """Registry contents never influence a content_id - also when ids collide.  With 1- and 2-byte digests the ids of
+    different small trees collide all the time: every tree with <= 2 nodes gets the same content_id built alone in an empty
+    registry and built while all the others are registered and alive (before it and after it)."""
+    from pyoak import config
+
+    trees = [d for n in (1, 2) for d in US.trees(n)]
+    saved = config.ID_DIGEST_SIZE
+    try:
+        for dsize in (1, 2):
+            config.ID_DIGEST_SIZE = dsize
+            alone = []
+            for d in trees:
+                NODE_REGISTRY.clear()
+                alone.append(US.build(d).content_id)
+            for direction in ("forward", "backward"):
+                NODE_REGISTRY.clear()
+                crowd = []
+                order = list(enumerate(trees)) if direction == "forward" else list(reversed(list(enumerate(trees))))
+                for i, d in order:
+                    rec.count("transitions"); rec.count("traces"); rec.count("evaluations")
+                    n = US.build(d)
+                    crowd.append(n)
+                    if n.content_id != alone[i]:
+                        rec.violation("C01|invariance|registry-crowd", {"a": freeze_desc(US, d), "digest_size": dsize, "crowd": direction},
+                                      f"content_id of a tree built while {len(crowd) - 1} other trees are registered (digest size {dsize}, colliding ids) differs from "
+                                      "the one it gets in an empty registry", expected=alone[i], observed=n.content_id)
+                        break
+                rec.outcome(f"crowd:{dsize}:{direction}")
+                del crowd
+    finally:
+        config.ID_DIGEST_SIZE = saved
+        NODE_REGISTRY.clear()
+
+
 def _universe_for(d, US, UV, AP_U):
     return AP_U if d[0] == "AP" else UV
 
@@ -313,6 +348,8 @@ def run_shard(cfg):
         C("AP", g["AP"], [F("a", PROP), F("b", PROP), F("c", OPT)]),
         C("AV", g["AV"], [F("v", PROP)]), C("AF", g["AF"], []),
     ])
+    if cfg["k"] == 3 % cfg["of"] and cfg.get("order", 0) == 0:
+        check_crowd(rec, US)
     table: dict[str, str] = {}
     shallow_of: dict[str, str] = {}
     held = []
@@ -609,6 +646,10 @@ def tojson(x):
 def replay(case, cfg):
     """Cases recorded by the runner went through jsonable(); descriptors with enums/frozensets are stored frozen."""
     rec = Rec(cfg)
+    if case.get("crowd"):
+        g, US, UV = make_universes(0)
+        check_crowd(rec, US)
+        return rec.result()["violations"]
     fa, fb = tojson(case["a"]), tojson(case.get("b", case["a"]))
     a, b = revive(fa), revive(fb)
     ca = case.get("cfg_a") or {"hashseed": (cfg.get("env") or {}).get("PYTHONHASHSEED", 0), "order": cfg.get("order", 0)}
